@@ -103,6 +103,20 @@ def body_catalogue(case, note):
     b1.append("y")
     b2 = f("x", id="i")
     check(S.snap(b2) == S.snap(h.Tag(name, "x", id="i", _add_ws=default)), f"{label}.{name}('x', id='i') after an earlier result was changed differs from Tag(...)")
+    # an element nested in one of the same name; long argument lists (size thresholds); both compared with the constructor
+    for ws in (None, True, False):
+        kw_ws = {} if ws is None else {"_add_ws": ws}
+        eff = default if ws is None else ws
+        inner = lambda: h.Tag(name, "in", h.Tag("i", _add_ws=False), id="in", class_="inner")
+        c1 = f(inner(), class_="outer", id="out", **kw_ws)
+        check(S.snap(c1) == S.snap(h.Tag(name, inner(), class_="outer", id="out", _add_ws=eff)), f"{label}.{name}(<{name}>...) differs from the Tag constructor (_add_ws={ws})")
+        for cnt in (13, 40, 130):
+            many = lambda: [h.Tag("option", "o%d" % i) if i % 3 == 0 else "t%d" % i for i in range(cnt)]
+            c2 = f(*many(), **kw_ws)
+            check(S.snap(c2) == S.snap(h.Tag(name, *many(), _add_ws=eff)), f"{label}.{name}() with {cnt} children differs from the Tag constructor (_add_ws={ws})")
+            check(c2.add_ws is eff, f"{label}.{name}() with {cnt} children: whitespace flag {c2.add_ws}, expected {eff}")
+            c3 = f({"id": "d"}, *many()[: cnt - 1], **kw_ws)
+            check(S.snap(c3) == S.snap(h.Tag(name, {"id": "d"}, *many()[: cnt - 1], _add_ws=eff)), f"{label}.{name}() with an attribute dict and {cnt - 1} children differs from the Tag constructor")
     sig = inspect.signature(f)
     check(sig.parameters["_add_ws"].default is default, "signature default of _add_ws differs from the classification")
     note(True, "mod:" + label, "inline" if not default else "block")
